@@ -39,5 +39,10 @@ let dispatch fn args = match fn, args with
   | "collect", [t; s] -> show (op_collect (sel_of_string s) (tree_of_string t))
   | "write", [t; _] -> show (op_write (tree_of_string t))
   | "insert", [t; s; b] -> show (op_insert (bool_of_str b) (sel_of_string s) (tree_of_string t))
+  | "versions", [ensured; h; r] ->
+    (* header and catalog version as 10*major+minor (hex), r = "-" for none *)
+    let root = if r = "-" then None else Some (n_of_hex r) in
+    let (h', r') = write_versions (bool_of_str ensured) (n_of_hex h) root in
+    "header=" ^ hex_of_n h' ^ " root=" ^ (match r' with None -> "-" | Some v -> hex_of_n v)
   | _ -> failwith ("unknown function " ^ fn)
 let () = main dispatch
